@@ -53,6 +53,7 @@ __CPROVER_assigns(g_chain_pos, g_consumed, g_taken, g_rejects)
 __CPROVER_ensures(g_consumed == CONSUMED(__CPROVER_return_value))                                                          /*@ob C01.result-says-consumed-iff-consumed */
 __CPROVER_ensures(((((int)__CPROVER_return_value) & HANDLED_TRUE) != 0) == (g_taken > __CPROVER_old(g_taken)))            /*@ob C06.handled-bit-iff-a-transition-was-taken */
 __CPROVER_ensures(g_taken <= __CPROVER_old(g_taken)+1)                                                                     /*@ob C01.at-most-one-candidate-taken */
+__CPROVER_ensures(g_taken >= __CPROVER_old(g_taken) && g_rejects >= __CPROVER_old(g_rejects) && g_chain_pos >= __CPROVER_old(g_chain_pos) && g_chain_pos <= g_n)
 __CPROVER_ensures(!g_consumed ==> g_chain_pos == g_n)                                                                      /*@ob C01.all-candidates-tried-if-none-consumed */
 __CPROVER_ensures(!g_consumed ==> (__CPROVER_return_value == ((g_rejects > __CPROVER_old(g_rejects)) ? HANDLED_GUARD_REJECT : HANDLED_FALSE)))  /*@ob C06.reject-reported-iff-some-guard-rejected */
 __CPROVER_ensures(0 <= (int)__CPROVER_return_value && (int)__CPROVER_return_value <= 7)
@@ -65,6 +66,7 @@ __CPROVER_assigns(g_chain_pos, g_consumed, g_taken, g_rejects)
 __CPROVER_ensures(g_consumed == CONSUMED(__CPROVER_return_value))                                                          /*@ob C01.result-says-consumed-iff-consumed */
 __CPROVER_ensures(((((int)__CPROVER_return_value) & HANDLED_TRUE) != 0) == (g_taken > __CPROVER_old(g_taken)))            /*@ob C06.handled-bit-iff-a-transition-was-taken */
 __CPROVER_ensures(g_taken <= __CPROVER_old(g_taken)+1)                                                                     /*@ob C01.at-most-one-candidate-taken */
+__CPROVER_ensures(g_taken >= __CPROVER_old(g_taken) && g_rejects >= __CPROVER_old(g_rejects) && g_chain_pos >= __CPROVER_old(g_chain_pos) && g_chain_pos <= g_n)
 __CPROVER_ensures(!g_consumed ==> g_chain_pos == g_n)                                                                      /*@ob C01.all-candidates-tried-if-none-consumed */
 __CPROVER_ensures(!g_consumed ==> (__CPROVER_return_value == ((g_rejects > __CPROVER_old(g_rejects)) ? HANDLED_GUARD_REJECT : HANDLED_FALSE)))  /*@ob C06.reject-reported-iff-some-guard-rejected */
 __CPROVER_ensures(0 <= (int)__CPROVER_return_value && (int)__CPROVER_return_value <= 7)
